@@ -204,3 +204,13 @@ Example ex_f10_classification :
   /\ pat_kind (bs "a/x/**") = LitStarStar (bs "a/x") /\ pat_kind (bs "a/x/*") = LitStar (bs "a/x")
   /\ pat_kind (bs "a.b") = Lit (bs "a.b") /\ pat_kind (bs "a/**/*") = Glob.
 Proof. vm_compute. repeat split; reflexivity. Qed.
+
+(* ---- source equivalence (tools/go2coq; gen/SrcFns.v is regenerated from /repo on every run): the
+        Gallina definition translated from filter.go's patternWithoutTrailingGlob equals the model
+        without_trailing_glob (a pattern being represented by the string its String() returns) ---- *)
+From FSGen Require SrcFns.
+From FS Require Proofs.Src.PatternWithoutTrailingGlobEq.
+Theorem patternWithoutTrailingGlob_src_eq :
+  forall p, SrcFns.patternWithoutTrailingGlob p = without_trailing_glob p.
+Proof. exact PatternWithoutTrailingGlobEq.patternWithoutTrailingGlob_src_eq. Qed.
+Print Assumptions patternWithoutTrailingGlob_src_eq.
